@@ -52,11 +52,12 @@ package state
 //@   modifies M:S_state_HeightView:Int
 //@   requires hv != nil
 //@   objinv [fields] w.parentCtxWithCancel != nil && w.hvToContext != nil
-//@   objinv [entries-non-nil] forall k HeightView :: has(w.hvToContext, k) ==> w.hvToContext[k] != nil
+//@   objinv [entries-non-nil] forall k HeightView :: has(w.hvToContext, k) ==> w.hvToContext[k] != nil && w.hvToContext[k].ctx != nil
 //@   objinv [no-context-below-watermark] forall k HeightView :: has(w.hvToContext, k) && w.newestHvCanceledOlder != nil ==> !(k.height < w.newestHvCanceledOlder.height || (k.height == w.newestHvCanceledOlder.height && k.view < w.newestHvCanceledOlder.view))
 //@   ensures [err.iff] (result1 != nil) == (old(w.shutdown) || (old(w.newestHvCanceledOlder) != nil && (hv.height < old(w.newestHvCanceledOlder).height || (hv.height == old(w.newestHvCanceledOlder).height && hv.view < old(w.newestHvCanceledOlder).view))))
 //@   ensures [err.frame] result1 != nil ==> result0 == nil && (forall k HeightView :: has(w.hvToContext, k) == old(has(w.hvToContext, k)) && w.hvToContext[k] == old(w.hvToContext[k]))
 //@   ensures [ok.present] result1 == nil ==> has(w.hvToContext, deref(hv)) && w.hvToContext[deref(hv)] != nil && w.hvToContext[deref(hv)].ctx == result0
+//@   ensures [ok.non-nil] result1 == nil ==> result0 != nil
 //@   ensures [ok.existing-kept] result1 == nil && old(has(w.hvToContext, deref(hv))) ==> w.hvToContext[deref(hv)] == old(w.hvToContext[deref(hv)])
 //@   ensures [ok.created-child-of-parent] result1 == nil && !old(has(w.hvToContext, deref(hv))) ==> ctx_parent(result0) == w.parentCtxWithCancel.ctx
 //@   ensures [ok.others] forall k HeightView :: k != deref(hv) ==> has(w.hvToContext, k) == old(has(w.hvToContext, k)) && w.hvToContext[k] == old(w.hvToContext[k])
@@ -68,7 +69,7 @@ package state
 //@   modifies M:S_state_HeightView:Int, state.ViewContexts.newestHvCanceledOlder, ghost:cancelled
 //@   requires hv != nil
 //@   objinv [fields] w.parentCtxWithCancel != nil && w.hvToContext != nil
-//@   objinv [entries-non-nil] forall k HeightView :: has(w.hvToContext, k) ==> w.hvToContext[k] != nil
+//@   objinv [entries-non-nil] forall k HeightView :: has(w.hvToContext, k) ==> w.hvToContext[k] != nil && w.hvToContext[k].ctx != nil
 //@   objinv [no-context-below-watermark] forall k HeightView :: has(w.hvToContext, k) && w.newestHvCanceledOlder != nil ==> !(k.height < w.newestHvCanceledOlder.height || (k.height == w.newestHvCanceledOlder.height && k.view < w.newestHvCanceledOlder.view))
 //@   ensures [older-removed] forall k HeightView :: (k.height < hv.height || (k.height == hv.height && k.view < hv.view)) ==> !has(w.hvToContext, k)
 //@   ensures [older-cancelled] forall k HeightView :: old(has(w.hvToContext, k)) && (k.height < hv.height || (k.height == hv.height && k.view < hv.view)) ==> cancelled[old(w.hvToContext[k].cancel)]
